@@ -55,6 +55,56 @@ Native(e) ==
              ELSE IF Lt(e.max, total) THEN [ok |-> FALSE, why |-> "CostExceeded"]
              ELSE [ok |-> TRUE, st |-> st, cost |-> total, ecost |-> exec, phs |-> phs, in |-> in]
 
+(* ---- generator arguments and block references ---------------------------------------------- *)
+(* A generator is run with the arguments (DESERIALIZER (ref_1 ref_2 ... ref_n)): the referenced  *)
+(* block generators as atoms IN THE ORDER GIVEN; a simple generator gets nil. The deserializer   *)
+(* program is opaque here (no path of the families below enters it).                             *)
+GenArgs(refs, simple) == IF simple THEN Nil ELSE ListOf(<<Nil, ListOf([i \in DOMAIN refs |-> Atom(refs[i])])>>)
+
+\* CLVM environment paths as step sequences (0 = first, 1 = rest); a step into an atom raises
+RECURSIVE Walk(_, _)
+Walk(t, steps) == IF steps = <<>> THEN [ok |-> TRUE, v |-> t]
+                  ELSE IF IsAtom(t) THEN [ok |-> FALSE, v |-> Nil]
+                  ELSE Walk(IF Head(steps) = 0 THEN t.l ELSE t.r, Tail(steps))
+\* the integer form of a path: steps are the bits from the least significant one, below a leading 1
+RECURSIVE PathInt(_, _)
+PathInt(steps, w) == IF steps = <<>> THEN w ELSE Head(steps) * w + PathInt(Tail(steps), 2 * w)
+\* the k-th (0-based) block reference: second argument, k rests, first
+RefSteps(k) == <<1, 0>> \o [i \in 1..k |-> 1] \o <<0>>
+RefPath(k) == Atom(<<PathInt(RefSteps(k), 1)>>)          \* k <= 3 keeps the path below 128 (one byte)
+
+(* The reference-selecting generator family: (c (c (c PATH (q . rest)) (q . others)) (q . outrest)).  *)
+(* Its value is fixed by the definition of c / q / environment lookup, no interpreter needed: the     *)
+(* first spend's parent is the selected block reference.                                              *)
+OpC == Atom(<<4>>)
+OpQ == Atom(<<1>>)
+RefSelProg(k, rest, others, outrest) ==
+  ListOf(<<OpC, ListOf(<<OpC, ListOf(<<OpC, RefPath(k), Cons(OpQ, rest)>>), Cons(OpQ, others)>>), Cons(OpQ, outrest)>>)
+IsRefSelProg(p) ==
+  /\ IsPair(p) /\ p.l = OpC /\ IsPair(p.r) /\ IsPair(p.r.r) /\ IsNil(p.r.r.r)
+  /\ LET i1 == p.r.l q3 == p.r.r.l IN
+     /\ IsPair(q3) /\ q3.l = OpQ
+     /\ IsPair(i1) /\ i1.l = OpC /\ IsPair(i1.r) /\ IsPair(i1.r.r) /\ IsNil(i1.r.r.r)
+     /\ LET i2 == i1.r.l q2 == i1.r.r.l IN
+        /\ IsPair(q2) /\ q2.l = OpQ
+        /\ IsPair(i2) /\ i2.l = OpC /\ IsPair(i2.r) /\ IsPair(i2.r.r) /\ IsNil(i2.r.r.r)
+        /\ IsAtom(i2.r.l) /\ IsPair(i2.r.r.l) /\ i2.r.r.l.l = OpQ
+RefSelParts(p) == [path |-> p.r.l.r.l.r.l, rest |-> p.r.l.r.l.r.r.l.r, others |-> p.r.l.r.r.l.r, outrest |-> p.r.r.l.r]
+\* what running such a generator yields, given the references (in order) and the mode
+RefSelRun(p, k, refs, simple) ==
+  LET parts == RefSelParts(p)
+      w == Walk(GenArgs(refs, simple), RefSteps(k))
+  IN [ok |-> w.ok, res |-> Cons(Cons(Cons(w.v, parts.rest), parts.others), parts.outrest)]
+\* an event of that family is consistent with the definition: right path, and the logged interpreter run of
+\* the generator is the defined value (binds the order in which references reach the generator)
+RefSelConsistent(e) ==
+  LET simple == "SIMPLE_GENERATOR" \in RangeOf(e.flags)
+      run == RefSelRun(e.prog, e.refsel, e.refs, simple)
+  IN /\ IsRefSelProg(e.prog)
+     /\ RefSelParts(e.prog).path = RefPath(e.refsel)
+     /\ e.genrun.ok = run.ok
+     /\ e.genrun.ok => e.genrun.res = run.res
+
 (* ---- C07: agreement of the two execution paths (on the two observed results) ---- *)
 SameConditions(a, b) ==   \* a, b: observed summaries; everything except cost / execution-cost attribution
   /\ Len(a.spends) = Len(b.spends)
